@@ -36,7 +36,7 @@ func (c C20Case) scenario(f *Fault) *Scenario {
 }
 
 var c20Variants = []struct{ Ctx, Err string }{
-	{"", "canceled"}, {"cancel", "canceled"}, {"deadline", "deadline"}, {"parent", "canceled"}, {"", "deadline"},
+	{"", "canceled"}, {"cancel", "canceled"}, {"deadline", "deadline"}, {"parent", "canceled"}, {"", "deadline"}, {"cause", "canceled"},
 }
 
 var c20Kinds = []string{"query", "first", "exists", "match", "existsormatch"}
@@ -108,6 +108,30 @@ func ScalingC20Cases(sizes []int) []C20Case {
 		`$[*]`, `$[*] ? (@ > 2)`, `$[*].a`, `$[*] ? (@.a > 1)`, `$[*] ? (exists(@.a))`, `$[*] ? ((@.a > 1) is unknown)`,
 		`$.**`, `$.** ? (@ == 3)`, `$[*] + 1`, `-$[*]`, `$[*].double()`, `$[*].keyvalue()`, `$[0 to last]`, `strict $[*].a`,
 		`$[*] > 0`, `exists($[*] ? (@.a > 100000))`, `$[*].a.size()`, `$[*] ? (@.a like_regex "x")`,
+	}
+	objPaths := []string{
+		`$.keyvalue().key`, `$.keyvalue().value`, `$.keyvalue() ? (@.value > 0).key`, `$.*`, `$.* ? (@ > 0)`, `$.**`,
+		`$.**{1} ? (@ == 1)`, `strict $.*`, `$.*.double()`, `exists($.* ? (@ > 5))`, `$.keyvalue().value + 1`, `$.* + 1`,
+	}
+	for _, n := range sizes {
+		// One large object whose members all hold the same scalar: member
+		// order cannot change the execution (DESIGN 3.6).
+		obj := make([]byte, 0, n*10)
+		obj = append(obj, '{')
+		for i := 0; i < n; i++ {
+			if i > 0 {
+				obj = append(obj, ',')
+			}
+			obj = append(obj, fmt.Sprintf(`"k%04d":1`, i)...)
+		}
+		obj = append(obj, '}')
+		for pi, p := range objPaths {
+			for ki, kind := range c20Kinds {
+				v := c20Variants[(pi+ki)%len(c20Variants)]
+				cases = append(cases, C20Case{Path: p, Doc: DocSpec{JSON: string(obj)}, Kind: kind,
+					Silent: (pi+ki)%2 == 1, Ctx: v.Ctx, Err: v.Err, Origin: fmt.Sprintf("scaling-object-%d", n)})
+			}
+		}
 	}
 	for _, n := range sizes {
 		flat := make([]byte, 0, n*8)
